@@ -121,6 +121,6 @@ pub fn run(env: &Env) -> i32 {
     rep.probe("C04-null-for-list", probe(sch, "query Q { f(ids: null, deep: [null]) }"));
     rep.probe("C04-nullable-var-with-default", probe(sch, "query Q($v: String = \"x\", $w: Int) { g(s: $v, d: $w) }"));
 
-    rep.campaign("valid-docs", env.cases(20_000, 300_000), (100, 1200), case_fn);
+    rep.campaign("valid-docs", env.cases(80_000, 800_000), (100, 1200), case_fn);
     rep.finish()
 }
